@@ -447,6 +447,7 @@ class _Exec:
         self.scalars1 = None
         self.cond_site = {}         # atomic condition -> the first `if` whose test made it
         self.cellname = {}          # plain name that holds an array cell for the duration of the body -> key of the cell
+        self.assert_sides = {}      # id(Assert) -> (small, big): the two sides of an asserted ordering `small <(=) big`
 
     # -- expressions
     def name(self, n):
@@ -696,6 +697,13 @@ class _Exec:
             t = self.cond(s.test)
             self.asserts.append(t)
             self.assert_sites.append((t, s, self.depth, self.phase1 is not None))
+            if isinstance(s.test, ast.Compare) and len(s.test.ops) == 1:
+                less = Cmp(s.test.left, type(s.test.ops[0]), s.test.comparators[0]).as_less()
+                if less is not None:
+                    try:
+                        self.assert_sides[id(s)] = (self.ev(less[0]), self.ev(less[2]))
+                    except AnalysisIncomplete:
+                        pass
             return
         if isinstance(s, ast.If):
             c = self.cond(s.test)
@@ -1433,6 +1441,99 @@ def _sign_of(e, tag):
     return None
 
 
+def _one_signed_poly(e):
+    """(sympy Poly, sign) of a polynomial whose coefficients all have one sign (sign 0: the zero polynomial), else None."""
+    sp = _sp()
+    e = sp.expand(e)
+    if e == 0:
+        return None, 0
+    gens = sorted(e.free_symbols, key=str)
+    if not gens:
+        return (None, (1 if e > 0 else -1)) if e.is_number and e.is_real else None
+    if not e.is_polynomial(*gens):
+        return None
+    poly = sp.Poly(e, *gens)
+    cs = poly.coeffs()
+    if any(not (c.is_number and c.is_real) for c in cs):
+        return None
+    if all(c > 0 for c in cs):
+        return poly, 1
+    if all(c < 0 for c in cs):
+        return poly, -1
+    return None
+
+
+def _assert_tolerance(ck, r, tag, ex, stmt):
+    """An asserted ordering `q <= tolerance` inside an update body, q a quantity whose sign rests on the cancellation
+    `row sum - cell >= 0` (its polynomial in the cells has mixed signs and becomes one-signed only after writing each
+    running row sum as cell + non-negative remainder - the reference `c`): in floating point the remainder carries the
+    rounding error of the incrementally updated row sum (relative to the WHOLE row sum), so q exceeds 0 by up to
+    u * M, M = the magnitude bound of q (every `row sum - cell` replaced by the row sum).  Necessary for "a model
+    rather than an internal assertion failure": the tolerance does not vanish at an admitted state where M does not.
+    Decided on the monomials (all indeterminates are non-negative): a monomial m of M such that every monomial of the
+    tolerance carries an indeterminate m does not -> the tolerance is exactly 0 on the states where only the
+    indeterminates of m are positive, while q is non-positive there only up to rounding -> violation.  Every monomial
+    of M present in the tolerance -> tolerance >= k * M -> ok.  Anything else (absolute tolerance, non-polynomial
+    tolerance, two cancellation-prone sides) -> no verdict of this rule.  The literal tolerance 0 is
+    C12.D1.no-zero-tolerance-sign-assert."""
+    rule = 'C12.D1.sweep-assert-tolerance'
+    sp = _sp()
+    sides = ex.assert_sides.get(id(stmt))
+    if sides is None or any(isinstance(x, (_Ite, bool)) for x in sides):
+        return
+    subst = _NONNEG_SUBST[tag]
+    sym = lambda t: sp.Symbol(t, real=True)
+    allowed = set(subst) | {cell for cell, _ in subst.values()} | set(_ZERO_POINT[tag])
+    if any(x.name not in allowed for e in sides for x in e.free_symbols):
+        return
+    to_rest = {sym(k): sym(cell) + sym(rest) for k, (cell, rest) in subst.items()}
+    from_rest = {sym(rest): sym(k) - sym(cell) for k, (cell, rest) in subst.items()}
+
+    def prone(e):
+        """sign established only through row sum = cell + remainder"""
+        return _one_signed_poly(e) is None and _one_signed_poly(e.xreplace(to_rest)) is not None
+    small, big = sides
+    if prone(small) and not prone(big):
+        q, tol = small, big
+    elif prone(big) and not prone(small):
+        q, tol = -big, -small
+    else:
+        return
+    pq = _one_signed_poly(q.xreplace(to_rest))
+    pt = _one_signed_poly(tol)
+    if pq is None or pq[1] != -1 or pq[0] is None or pt is None or pt[1] != 1 or pt[0] is None:
+        return              # q not established non-positive / tolerance 0, constant, or not a one-signed polynomial of the cells
+    # magnitude bound: |coefficients|, every remainder of a running row sum back to the whole row sum
+    xrs_rest = {sym(rest): sym(cell) + sym(rest) for k, (cell, rest) in subst.items() if k.startswith('X_rs')}
+    M = sp.expand(sum(abs(c) * sp.Mul(*[g ** k for g, k in zip(pq[0].gens, mon)]).xreplace(xrs_rest)
+                      for mon, c in pq[0].terms()))
+    T = sp.expand(tol.xreplace(to_rest))
+    gens = sorted(M.free_symbols | T.free_symbols, key=str)
+    supp = lambda P: {frozenset(g for g, k in zip(gens, mon) if k) for mon, _ in sp.Poly(P, *gens).terms()}
+    monos = lambda P: {mon for mon, _ in sp.Poly(P, *gens).terms()}
+    sM, sT = supp(M), supp(T)
+    construct = '%s: %s' % (r.impl, u(stmt)[:140])
+    # the cell of X is positive as soon as the pair has counts in one direction (it starts as C[i,j] + C[j,i] and the
+    # positive root keeps it positive): it is not an independent way for the tolerance to vanish
+    xcells = {g for g in gens if g.name.startswith('X[')}
+    counts = {g for g in gens if g.name.startswith('C[')}
+    naked = sorted((m for m in sM if m & counts and not any(t - xcells <= m for t in sT)), key=lambda m: (len(m), sorted(map(str, m))))
+    if naked:
+        m = naked[0]
+        zero = sorted({str(g) for t in sT for g in t} - {str(g) for g in m})
+        ck.bad(rule, r.mod, stmt, r.fn.name, construct,
+               '%s: the asserted quantity `%s` is non-positive only through `row sum - cell >= 0`, which holds up to the rounding of the '
+               'incrementally updated row sums (error relative to the whole row sum): it can exceed 0 by about 1e-16 * (%s). The tolerance '
+               '`%s` is exactly 0 whenever %s = 0, also where %s > 0 (admitted: counts in one direction only, no self-counts), so the '
+               'assertion then demands the exact sign and raises AssertionError for admissible counts instead of returning a model '
+               '(the reference tolerance is proportional to (C[i,j] + C[j,i]) * X_rs[i] * X_rs[j])' % (
+                   r.impl, _short(sp.factor(q), 100), _short(sp.factor(M.xreplace(from_rest)), 100), _short(sp.factor(tol), 100),
+                   ', '.join(zero[:3]), ' * '.join(sorted(str(g) for g in m))))
+    elif monos(M) <= monos(T):
+        ck.ok(rule, r.mod, stmt, construct, 'the tolerance is at least a multiple of the magnitude bound of the asserted quantity '
+              '(it vanishes only where the quantity vanishes identically)')
+
+
 def _sweep_asserts(ck, r, tag, ex):
     """Every assertion inside an update body is implied by the invariants of the sweep (in exact arithmetic; the
     rounding of the running sums is C12.D1.no-zero-tolerance-sign-assert / running-sum-rederived), for EVERY
@@ -1479,6 +1580,11 @@ def _sweep_asserts(ck, r, tag, ex):
         if v == 'ok':
             ck.ok(rule, mod, stmt, construct, 'implied by the invariants of the sweep (non-negative counts and cells, row sum = cell + '
                   'non-negative remainder), also for pairs without counts')
+            if depth == 0 and not late:
+                try:
+                    _assert_tolerance(ck, r, tag, ex, stmt)
+                except (AnalysisIncomplete, AttributeError, KeyError, IndexError, TypeError, ValueError, RecursionError):
+                    pass        # an additional necessary condition; the shapes it does not model are left to the rule above
         elif isinstance(v, tuple) and depth == 0 and not late and _closed(t):
             ck.bad(rule, mod, stmt, F, construct,
                    '%s: the assertion inside the %s update fails for admitted count matrices: %s. The estimator then ends in an internal '
@@ -1664,6 +1770,63 @@ def d3_siblings(ck, rp, mp_model, rx, mx_model):
             ck.missing(rule, 'role `%s` could not be compared: %s' % (k, why[:160]))
     if agree == len(keys) and not unmodelled:
         ck.floor(rule, agree, 15, 'agreeing roles')
+
+
+def _literal_number(e, depth=0):
+    """Value of an arithmetic expression over numeric LITERALS (`10 ** 5`, `1e-10`, `-1`, `int(1e5)`), folded by the
+    rule's own arithmetic; None when it is anything else (a name, a call, an exponent that is not a small integer)."""
+    if depth > 8:
+        return None
+    v = const_value(e)
+    if isinstance(v, (int, float)) and not isinstance(v, bool):
+        return v
+    if isinstance(e, ast.UnaryOp) and isinstance(e.op, (ast.USub, ast.UAdd)):
+        x = _literal_number(e.operand, depth + 1)
+        return None if x is None else (-x if isinstance(e.op, ast.USub) else x)
+    if isinstance(e, ast.Call) and call_name(e) in ('int', 'float') and len(e.args) == 1 and not e.keywords:
+        x = _literal_number(e.args[0], depth + 1)
+        if x is None or (call_name(e) == 'int' and x != int(x)):
+            return None
+        return int(x) if call_name(e) == 'int' else float(x)
+    if isinstance(e, ast.BinOp):
+        a, b = _literal_number(e.left, depth + 1), _literal_number(e.right, depth + 1)
+        if a is None or b is None:
+            return None
+        if isinstance(e.op, ast.Add):
+            return a + b
+        if isinstance(e.op, ast.Sub):
+            return a - b
+        if isinstance(e.op, ast.Mult):
+            return a * b
+        if isinstance(e.op, ast.Div) and b != 0:
+            return a / b
+        if isinstance(e.op, ast.Pow) and isinstance(b, int) and abs(b) <= 64 and isinstance(a, (int, float)) and abs(a) <= 1e6 and (a != 0 or b >= 0):
+            return a ** b
+    return None
+
+
+def d3_defaults(ck, rp, rx):
+    """`builders._prinz_mle_py(C)` and `libmsm._mle_prinz_dense(C)` agree on every matrix only if the parameters that
+    decide when the iteration stops - the tolerance and the iteration cap, located as the 2nd / 3rd parameter of each
+    implementation - have the same default: another tolerance stops at another iterate (the models differ by more
+    than either tolerance), another cap turns a model into a non-convergence warning."""
+    from ..core import param_default
+    rule = 'C12.D3.siblings.defaults'
+    for what, a, b in (('convergence tolerance', rp.tol, rx.tol), ('iteration cap', rp.cap, rx.cap)):
+        da, db = param_default(rp.fn, a), param_default(rx.fn, b)
+        construct = 'default of the %s: py %s=%s | pyx %s=%s' % (what, a, u(da) if da is not None else '<none>', b, u(db) if db is not None else '<none>')
+        if da is None and db is None:
+            ck.ok(rule, rp.mod, rp.fn, construct, 'neither implementation has a default')
+            continue
+        va, vb = (None if d is None else _literal_number(d) for d in (da, db))
+        if da is None or db is None or va is None or vb is None:
+            ck.missing(rule, '%s: not two literal numbers: not compared' % construct)
+            continue
+        ck.check(va == vb, rule, rp.mod, rp.fn, '_prinz_mle_py <-> _mle_prinz_dense', 'default of the %s' % what,
+                 'same default in builders.py and libmsm.pyx (%s)' % u(da),
+                 'the %s defaults to %s in builders._prinz_mle_py and to %s in libmsm._mle_prinz_dense: called the same way (`f(C)`, as '
+                 '`mle` and `_prinz_mle` do) the two implementations stop at different iterates / one of them ends in the non-convergence '
+                 'warning, so they no longer agree on every count matrix' % (what, u(da), u(db)))
 
 
 # ---------------------------------------------------------------------------
@@ -2122,6 +2285,61 @@ def d5_result(ck, r):
                  'every state has counts (precondition after trimming)', 'the estimator must reject states without counts')
 
 
+def _sanity_sense(test, parent, red, P):
+    """How the reduction `red` (a sum that the result formulas make 1 up to rounding) enters the asserted `test`.
+    True: the test states that the sum is about 1 - a tolerance test `isclose/allclose(sum, 1)` or an ordering
+    `[abs](sum - 1) <(=) bound` / `bound >(=) ...` with a positive literal bound, in positive position (only `and`,
+    `all(...)`-style wrappers and an even number of `not` above it).  False: the complement (negated tolerance test,
+    deviation on the LARGE side of the bound): fails for every input.  None: anything else (exact equality is
+    C12.D1.no-exact-float-assert's business; ordering of the sum itself against 1, disjunctions, unknown wrappers)."""
+    atom, holds = None, None
+    if isinstance(P, ast.Call) and (call_name(P) or '').split('.')[-1] in ('allclose', 'isclose'):
+        atom, holds = P, True
+    elif isinstance(P, ast.BinOp) and isinstance(P.op, ast.Sub):
+        dev = P
+        up = parent.get(dev)
+        while True:
+            # |deviation|, and its largest entry: abs(d), np.abs(d), d.max(), abs(d).max()
+            if isinstance(up, ast.Call) and call_name(up) in ('abs', 'np.abs', 'np.fabs', 'math.fabs', 'fabs', 'np.absolute') \
+                    and len(up.args) == 1 and up.args[0] is dev and not up.keywords:
+                dev, up = up, parent.get(up)
+            elif isinstance(up, ast.Attribute) and up.attr == 'max' and up.value is dev and isinstance(parent.get(up), ast.Call) \
+                    and parent[up].func is up and not parent[up].args and not parent[up].keywords:
+                dev, up = parent[up], parent.get(parent[up])
+            else:
+                break
+        if isinstance(up, ast.Compare) and len(up.ops) == 1:
+            less = Cmp(up.left, type(up.ops[0]), up.comparators[0]).as_less()
+            if less is not None:
+                small, _, big = less
+                bound = const_value(big if small is dev else small)
+                if (small is dev or big is dev) and isinstance(bound, (int, float)) and not isinstance(bound, bool) and 0 < bound < 1:
+                    atom, holds = up, small is dev
+    if atom is None:
+        return None
+    node, conj = atom, False
+    while node is not test:
+        up = parent.get(node)
+        if up is None:
+            return None
+        if isinstance(up, ast.UnaryOp) and isinstance(up.op, ast.Not):
+            if conj:
+                return None     # not (A and B): a disjunction
+            holds = not holds
+        elif isinstance(up, ast.BoolOp) and isinstance(up.op, ast.And) and holds:
+            conj = True
+        elif isinstance(up, ast.Call) and len(up.args) == 1 and up.args[0] is node and not up.keywords \
+                and call_name(up) in ('np.all', 'all', 'bool'):
+            pass
+        elif isinstance(up, ast.Attribute) and up.attr == 'all' and isinstance(parent.get(up), ast.Call) \
+                and parent[up].func is up and not parent[up].args and not parent[up].keywords:
+            up = parent[up]
+        else:
+            return None
+        node = up
+    return holds
+
+
 def _d5_sanity_asserts(ck, r, ret, t_rows):
     """The sanity assertions between the iteration and `return T, pi` are implied by the result formulas
     (C12.D5.result: T = X / rowsum(X)[:, None], pi = X_rs / X_rs.sum()): a reduction of T inside such an assertion
@@ -2198,6 +2416,21 @@ def _d5_sanity_asserts(ck, r, ret, t_rows):
                 continue
             if isinstance(ov, bool) or not isinstance(ov, (int, float)) or ov != 1:
                 ck.missing(rule, '%s: `%s`: the value the sum of %s is compared with is not the literal 1: not decided' % (impl, u(s)[:80], what))
+                continue
+            # ... and the assertion states that the sum IS (about) 1: polarity of the atom inside the asserted test,
+            # direction of a comparison of the deviation with a bound
+            sense = _sanity_sense(test, parent, red, P)
+            if sense is None:
+                ck.missing(rule, '%s: `%s`: how the sum of %s enters the asserted condition (negation, disjunction, ordering against 1) '
+                                 'is not decided' % (impl, u(s)[:80], what))
+                continue
+            if sense is False:
+                ck.bad(rule, mod, s, F, '%s: sense of the sanity assertion on %s' % (impl, what),
+                       '%s: `%s` asserts that the %s do NOT sum to 1 within the bound (negated tolerance test / deviation on the large side '
+                       'of the comparison). By %s the sum is 1 up to rounding for EVERY admitted count matrix, so the assertion fails for '
+                       'every input and the estimator ends in an internal AssertionError instead of returning the model' % (
+                           impl, u(s)[:80], 'rows of T' if what == 'T' else 'entries of pi',
+                           'T = X / rowsum(X)[:, None]' if what == 'T' else 'pi = X_rs / X_rs.sum()'))
                 continue
             ck.ok(rule, mod, s, construct, 'the rows of T sum to 1 by T = X / rowsum(X)' if what == 'T' else
                   'pi sums to 1 by pi = X_rs / X_rs.sum()')
@@ -3425,6 +3658,11 @@ def check(ck):
         _guarded(ck, 'C12.D5.result', d5_result, r)
     if len(models) == 2:
         d3_siblings(ck, rp, models[0], rx, models[1])
+    if rp is not None and rx is not None:
+        try:
+            d3_defaults(ck, rp, rx)
+        except (AnalysisIncomplete, AttributeError, KeyError, IndexError, TypeError, ValueError, RecursionError) as e:
+            ck.missing('C12.D3.siblings.defaults', 'parameter defaults not comparable (%r)' % (e,))
     for r in (rp, rx):
         if r is not None:
             _guarded(ck, 'C12.D1.running-sum-rederived', d1_running_sums, r)
